@@ -84,6 +84,22 @@ def generate(ctx):
     for v in common.scalar_roots() + [('a', [('u', 1), ('u', 2), ('u', 5)]), ('a', []), ('a', [('u', 5)]), ('o', [(b'a', ('u', 5))]), ('o', [])]:
         for e in preds:
             trial(v, common.path_text([('P', e)]), True)
+    # ONE Selector object reused for a sequence of calls and documents (exists, select, predicate_match, select on another
+    # document, exists on it, select on the first again, twice): every answer must be what a fresh selector gives (a seeded
+    # per-selector scratch queue kept the positions of an `exists` that returned true)
+    ctx.reuse = []
+    small = [v for v in ds if len(gen.enc(v)) <= 300]
+    nested_self = ('o', [(b'a', ('o', [(b'a', ('u', 1))]))])
+    fixed_r = [(nested_self, 'R;D61'), (nested_self, 'R'), (('a', [('u', 1), ('a', [('u', 2)])]), 'R;B'), (('a', [('a', [('a', [])])]), 'R;B'),
+               (('u', 5), 'R'), (('o', [(b'a', ('u', 1))]), 'R;W'), (('a', [('u', 1), ('u', 2)]), 'R;B;Fbgt(p(C)|vu1)')]
+    for v, p in fixed_r + [(v, common.path_text(common.gen_path(ctx, v))) for v in r.sample(small, min(len(small), ctx.scale(150, 3000)))] + \
+            [(v, r.choice(['R', 'R;B', 'R;W', 'R;B;B'])) for v in r.sample(small, min(len(small), ctx.scale(80, 1500)))]:
+        w = r.choice([v, r.choice(small)])
+        e, we = gen.hexarg(gen.enc(v)), gen.hexarg(gen.enc(w))
+        m = r.choice(['all', 'array', 'mixed', 'first'])
+        singles = [ctx.add('sel_exists %s %s' % (e, p)).id, ctx.add('select %s %s %s' % (e, p, m)).id, ctx.add('sel_predicate_match %s %s' % (e, p)).id,
+                   ctx.add('select %s %s %s' % (we, p, m)).id, ctx.add('sel_exists %s %s' % (we, p)).id]
+        ctx.reuse.append((singles, ctx.add('sel_reuse %s %s %s %s' % (e, p, m, we), diff=False).id))
     # long chains of && / ||, deep nesting (no recursion budget in the model: the mode laws hold for them as well)
     ldocs = [v for v in ds if len(gen.enc(v)) <= 200][:40]
     for lab, p, is_pred in longpaths.paths(r, sizes=(64, 70, 300)):
@@ -93,6 +109,16 @@ def generate(ctx):
 
 def judge(ctx):
     impl = ctx.impl
+    for singles, rid in ctx.reuse:
+        o = impl.get(rid, 'missing')
+        one = [impl.get(i, 'missing') for i in singles]
+        if o in ('panic', 'timeout', 'missing') or o.startswith('abort') or any(x in ('panic', 'timeout', 'missing') for x in one):
+            continue    # the generic rule reports these
+        want = [one[0], one[1], one[2], one[3], one[4], one[1], one[1]]
+        ctx.count('selector_objects_reused_for_a_sequence_of_calls')
+        if o.split(' | ') != want:
+            ctx.violate('a Selector used for a sequence of calls answers differently from fresh selectors', case=ctx.cases[int(rid[1:]) - 1].line[:500],
+                        expected=[x[:160] for x in want], observed=[x[:160] for x in o.split(' | ')])
     for v, p, is_pred, ids, pre in ctx.trials:
         o = {k: impl.get(i, 'missing') for k, i in ids.items()}
         case = {'doc': gen.vtext(v), 'path': p}
